@@ -831,7 +831,8 @@ class state_machine_base : public FrontEnd
 
       public:
         completion_event_occurrence(uint8_t region_id)
-            : event_occurrence(&try_process), m_region_id(region_id)
+            : event_occurrence(&try_process, /*is_completion=*/true),
+              m_region_id(region_id)
         {
         }
 
@@ -915,6 +916,15 @@ class state_machine_base : public FrontEnd
                 continue;
             }
 
+            // Completion transitions belong to the run-to-completion step of
+            // the event that armed them: they are processed even when the
+            // limit is reached and they do not count as processed events.
+            const bool is_completion = event.is_completion();
+            if (processed_events == max_events && !is_completion)
+            {
+                break;
+            }
+
             std::optional<process_result> result =
                 event.try_process(self(), event_pool.cur_seq_cnt);
             // The event has not been dispatched.
@@ -925,13 +935,9 @@ class state_machine_base : public FrontEnd
             }
 
             // Consider anything except "only deferred" to be a processed event.
-            if (*result != process_result::HANDLED_DEFERRED)
+            if (*result != process_result::HANDLED_DEFERRED && !is_completion)
             {
                 processed_events++;
-                if (processed_events == max_events)
-                {
-                    break;
-                }
             }
 
             // Start from the beginning, we might be able to process
